@@ -41,7 +41,7 @@ def obligations(sec, job, st):
     for nm, x in (('second-save', b), ('equal-object', c)):
         if len(a) != len(x): O.append(Obl('repeatable/%s.length' % nm, True, 'first save %d bytes, %s %d bytes' % (len(a), nm, len(x)))); continue
         for k, (p, q) in enumerate(zip(a, x)):
-            if p is None or q is None: continue      # reported by the definedness obligation
+            if p is None or q is None or has_undef(p) or has_undef(q): continue      # reported by the definedness obligation
             O.append(Obl('repeatable/%s/%s' % (nm, field_of(k)), neq(p, q), 'byte %d differs between the first save and the %s' % (k, nm)))
     if st is not None:
         seen = set()
